@@ -56,6 +56,11 @@ def run(ctx: Ctx) -> None:
     fparam = fn.args.args[0].arg if fn.args.args else None
     ctx.check("contextmanager" in mb.decorator_names(), "R-C23.1", f"{mb.qualname}#contextmanager", mb.where,
               {"decorators": mb.decorator_names()}, "mock_builtins is used in a `with`; it must be a context manager")
+    # semantic evaluation of save/install/restore on all small namespaces; the shape rules below about *how* the old
+    # values are saved and restored only apply when the function is not in the evaluable form
+    from . import c23_eval
+    semantic = c23_eval.run(ctx, mb)
+    shape_check = (lambda *a, **k: True) if semantic else ctx.check
     yields = [n for n in walk_no_nested(fn) if isinstance(n, ast.Yield)]
     if len(yields) != 1:
         ctx.undecided("R-C23.1", f"{mb.qualname}#shape", mb.where, f"{len(yields)} yields")
@@ -121,11 +126,11 @@ def run(ctx: Ctx) -> None:
                 present_filter = any(
                     isinstance(c, ast.Compare) and len(c.ops) == 1 and isinstance(c.ops[0], ast.In)
                     and isinstance(c.comparators[0], ast.Attribute) and c.comparators[0].attr in NS_ATTRS for c in g.ifs)
-                ctx.check(bind_line[nm] < first_write_line, "R-C23.1", f"{mb.qualname}#old-captured-before-update", f"{mb.module.rel}:{bind_line[nm]}",
+                shape_check(bind_line[nm] < first_write_line, "R-C23.1", f"{mb.qualname}#old-captured-before-update", f"{mb.module.rel}:{bind_line[nm]}",
                           {"old_bound_at_line": bind_line[nm], "first_write_at_line": first_write_line},
                           "the 'old' values are read after the mocks were installed: the restore re-installs the mocks for good "
                           "(nested comptime calls and user bindings of int/float/len are lost)")
-                ctx.check(it_ks is not None and it_ks >= written and present_filter, "R-C23.1", f"{mb.qualname}#old-covers-written-keys", f"{mb.module.rel}:{bind_line[nm]}",
+                shape_check(it_ks is not None and it_ks >= written and present_filter, "R-C23.1", f"{mb.qualname}#old-covers-written-keys", f"{mb.module.rel}:{bind_line[nm]}",
                           {"old_iterates": sorted(it_ks) if it_ks else None, "written": sorted(written), "only_if_present": present_filter},
                           "a user binding for a shadowed name is not saved (or a missing one is looked up): it cannot be restored")
     if old_name is None:
@@ -157,7 +162,7 @@ def run(ctx: Ctx) -> None:
                             if (isinstance(e.ops[0], ast.NotIn) and pol) or (isinstance(e.ops[0], ast.In) and not pol):
                                 del_guard_ok = True
     # alternative restore shape: per-key loop assigning old values
-    ctx.check(restored_update and deleted is not None and deleted >= written and del_guard_ok, "R-C23.1",
+    shape_check(restored_update and deleted is not None and deleted >= written and del_guard_ok, "R-C23.1",
               f"{mb.qualname}#restore-covers-written-keys", mb.where,
               {"update_old": restored_update, "deleted_keys": sorted(deleted) if deleted else None, "written": sorted(written),
                "delete_only_if_not_in_old": del_guard_ok},
